@@ -69,7 +69,10 @@ fn equivalent(orig: &Definition<Rust>, back: &Definition<Rust>) -> bool {
             let mut parts = inner.split("\", \"");
             let ty = parts.next().unwrap_or("");
             let item = parts.next().unwrap_or("");
-            out.push_str(&format!("EnumeratedVariant(\"{}\", \"{}\")", asn1rs_model::generate::rust::RustCodeGenerator::rust_variant_name(ty), asn1rs_model::generate::rust::RustCodeGenerator::rust_variant_name(item)));
+            // (compared without case and punctuation: the name mangling is not idempotent, so
+            // mangling both sides again would not make them meet)
+            let loose = |s: &str| s.chars().filter(|c| c.is_ascii_alphanumeric()).map(|c| c.to_ascii_lowercase()).collect::<String>();
+            out.push_str(&format!("EnumeratedVariant(\"{}\", \"{}\")", loose(ty), loose(item)));
             rest = &tail[end..];
         }
         out.push_str(rest);
